@@ -11,8 +11,11 @@ from checks import _gov
 
 def run(ctx):
     q = ctx.quick
-    summ, altsp = _gov.run_gov(ctx, "C35", "C35", "Governance_C35_gen_quick.cfg" if q else "Governance_C35_gen_thorough.cfg",
-                               nv=4 if q else 5, depth=3 if q else 4, cap=3000 if q else 8000)
+    # the quick configuration is part of both tiers (its exploration of the real contracts around the deviations is
+    # complete or nearly so); the thorough tier adds the larger configuration
+    _gov.run_gov(ctx, "C35", "C35", "Governance_C35_gen_quick.cfg", nv=4, depth=3, cap=3000)
+    if not q:
+        _gov.run_gov(ctx, "C35", "C35", "Governance_C35_gen_thorough.cfg", nv=5, depth=4, cap=8000)
     return ctx.finish(rule="P-EDGE: every (model state, action) edge of Governance.tla in mode C35 replayed on the real "
                       "side_chain_manager; deviating real executions and a bounded exploration of the real contract from each "
                       "deviating state are judged by TLC (GovJudge) with the PropC35 monitor. distinct_nontrivial = distinct "
